@@ -85,10 +85,42 @@ CHECKS['C17'] = dict(
          'converters and the attributes wired to them x mode; channel/frame incidence matrices x mode; sequential file-set numbers.',
     note='Signed-integer data and non-uniform spacing in the mode depend on numpy results and are decided with C08/C13.')
 
+NP_NOTE = ('Sits on the npstub contract (numpy view/copy, slicing, field assignment/broadcast, scalar-vs-subarray element byte order), '
+           'validated differentially against real numpy on every run; element values, casts and HDF5 I/O are numpy/h5py C code and are '
+           'exercised only by the replays of each witness.')
+CHECKS['C11'] = dict(
+    text='For each of the four source kinds (dict, structured array copy path, structured array fast path, HDF5 with one mapping entry '
+         'with and one without leading slash, unused datasets, permuted source order) and symbolic total/window/chunk bounds the chunk '
+         'returned by the real wrappers is proved to show exactly source rows [from+start, from+stop) of every channel in the frame\'s '
+         'channel order; invalid windows are refused; MultiFrameData yields one numbered record per row for every input chunk size; '
+         'make_chunked_generator tiles [0,n) exactly once.',
+    note=NP_NOTE + ' Byte-identity of the files across source kinds / chunk sizes / pre-sliced inline arrays is confirmed by replay on every witness, not by the solver.')
+CHECKS['C03'] = dict(
+    text='Structure of the frame-data stream: exactly one FrameData per row, numbered 1..N, referencing its frame, row k carrying source '
+         'row from+k; body = frame OBNAME || UVARI(frame number) || slots in channel order, each itemsize x width bytes and most '
+         'significant byte first for either source byte order, scalar or 2-D, all 8 dtypes, all four source kinds.',
+    note=NP_NOTE + ' The bit-exact value round trip (NaN payloads, casts, strides) is outside the solver: decided structurally only, as stated in DESIGN.')
+CHECKS['C08'] = dict(
+    text='After the real set-up from data, for symbolic width (0..2**20), dtype, cast dtype and user dimension/element limit: '
+         'REPRESENTATION-CODE is the code of the dtype written, DIMENSION the per-row shape, ELEMENT-LIMIT bounds it, inconsistent user '
+         'values raise; together with the frame-data body obligation the record length formula follows.',
+    note=NP_NOTE)
+CHECKS['C19'] = dict(
+    text='Taint obligation over the whole Python-level data path (4 source kinds x cast x byte order x chunking): no in-place operation '
+         'reaches caller-owned memory or a view of it; the dict passed as data keeps its keys and value objects and nothing passed is '
+         'retained in the specification.',
+    note=NP_NOTE + ' The stub models these in-place operations: item/field assignment, byteswap(inplace), sort, fill, |=, +=, *=; anything else raises StubGap.')
+CHECKS['C12'] = dict(
+    text='Rejection side of fail-closed: different row counts, unsupported dtypes, >2 dimensions, missing datasets, empty/oversized '
+         'windows, names/units/IDENT values/set names over 255 characters (symbolic lengths to 70000), integers outside every code\'s '
+         'range (all of Z), UVARI/ASCII length limits, label and header field overflows, missing origin/channels/frames - each proved to '
+         'raise; the degenerate empty value list is proved to be encoded as count 0.',
+    note='"Accepted implies faithful" is the conjunction of the other checks. Non-ASCII rejection is the call-site contract of C06.')
+
 NOT_APPLICABLE = [
     {'property_id': p, 'reason': 'check under construction in this round (see DESIGN.md section 4); not claimed yet'}
-    for p in ['C03', 'C05', 'C08', 'C11', 'C12', 'C13', 'C14', 
-              'C18', 'C19', 'C20']
+    for p in ['C05', 'C13', 'C14', 
+              'C18', 'C20']
 ]
 
 NOTES = ('All checks: ./vcheck <id> [--tier quick|thorough]. Exit 0 = no violation among everything decided '
